@@ -669,6 +669,7 @@ func c05R11(ic *IC, r *Report) {
 		n++
 		// a composite literal receiver{val: X} (or &receiver{...}) with X a local assigned from reflect.New(...).Elem()
 		ok := false
+		helperWhy := ""
 		ast.Inspect(fl.Body, func(m ast.Node) bool {
 			cl, isCl := m.(*ast.CompositeLit)
 			if !isCl || recvT == nil {
@@ -684,6 +685,39 @@ func c05R11(ic *IC, r *Report) {
 				}
 				if id := identOf(kv.Key); id == nil || id.Name != "val" {
 					continue
+				}
+				// the receiver bound by a helper of the generator: the helper copies, and copies the
+				// value the method works on - for a value receiver reached through a pointer the
+				// copy is made after the dereference (a copy of the pointer followed by Elem()
+				// aliases the pointed struct)
+				if hc, isCall := unparen(kv.Value).(*ast.CallExpr); isCall {
+					if h, isF := calleeOf(info, hc).(*types.Func); isF && h.Pkg() == ic.Pk.Types {
+						if hd := ic.G.Funcs[h]; hd != nil && hd.Decl.Body != nil {
+							var copyPos, derefPos token.Pos
+							ast.Inspect(hd.Decl.Body, func(q ast.Node) bool {
+								c, isC := q.(*ast.CallExpr)
+								if !isC {
+									return true
+								}
+								if g, isF := calleeOf(info, c).(*types.Func); isF && (copiers(ic)[g] || isCallTo(info, c, "reflect.New")) {
+									if copyPos == token.NoPos || c.Pos() > copyPos {
+										copyPos = c.Pos()
+									}
+								}
+								if isCallTo(info, c, "reflect.Value.Elem") && len(callsIn(info, c, true, "reflect.New")) == 0 {
+									if c.Pos() > derefPos {
+										derefPos = c.Pos()
+									}
+								}
+								return true
+							})
+							if copyPos != token.NoPos && (derefPos == token.NoPos || derefPos < copyPos) {
+								ok = true
+							} else if copyPos != token.NoPos {
+								helperWhy = h.Name() + " copies the receiver (" + ic.pos(copyPos) + ") and dereferences it afterwards (" + ic.pos(derefPos) + "): for a value receiver reached through a pointer the copy is of the pointer, and the method value works on the pointed struct itself - f := p.M; p.x = 9; f() sees 9"
+							}
+						}
+					}
 				}
 				if vid := identOf(kv.Value); vid != nil {
 					// the recorded value, or a local it is assigned from, is reflect.New(T).Elem()
@@ -714,8 +748,12 @@ func c05R11(ic *IC, r *Report) {
 			}
 			return true
 		})
+		detail := "the run-time closure of getMethod hands the receiver *node* to the function value: the receiver expression is evaluated again at each call, so g := c.get; c.n = 5; g() sees n == 5 where compiled Go bound a copy of c when g was evaluated (1)"
+		if helperWhy != "" {
+			detail = "the run-time closure of getMethod binds the receiver through a helper that does not copy the value the method works on: " + helperWhy
+		}
 		r.Check(ok, "R05.11", fmt.Sprintf("getMethod/closure#%d/receiver-bound-at-evaluation", k+1), ic.pos(fl.Pos()), "the method value records a copy of its receiver",
-			"the run-time closure of getMethod hands the receiver *node* to the function value: the receiver expression is evaluated again at each call, so g := c.get; c.n = 5; g() sees n == 5 where compiled Go bound a copy of c when g was evaluated (1)")
+			detail)
 	}
 	if n == 0 {
 		r.Errorf("R05.11: no run-time closure found in getMethod")
